@@ -198,6 +198,13 @@ Proof.
   auto.
 Qed.
 
+Lemma exchange_gate_ec a b z :
+  exchange O a b = Ok z -> str_eqb (k_kty a) (s_ "OKP") = false -> str_eqb (k_kty b) (s_ "EC") = true.
+Proof.
+  unfold exchange. intros H K. rewrite K in H.
+  destruct (str_eqb (k_kty b) (s_ "EC")); [reflexivity | discriminate].
+Qed.
+
 Lemma exchange_sym_gen a b b' z :
   exchange O a b = Ok z -> k_priv b = true -> k_kty a = k_kty b ->
   k_kty b' = k_kty a -> k_crv b' = k_crv a -> k_id b' = k_id a ->
@@ -208,7 +215,8 @@ Proof.
   destruct (str_eqb (k_kty a) (s_ "OKP")) eqn:OK.
   - destruct (exchange_gate_okp a b z H OK) as [_ X]. rewrite X. simpl.
     apply (ct_ecdh O C). exact Z.
-  - simpl. apply (ct_ecdh O C). exact Z.
+  - pose proof (exchange_gate_ec a b z H OK) as EC. rewrite <- Kt in EC. rewrite EC.
+    simpl. apply (ct_ecdh O C). exact Z.
 Qed.
 
 Lemma exchange_sym a b z :
